@@ -259,7 +259,7 @@ pub fn run(prop: &'static str, args: &Args) -> i32 {
             .into();
     } else {
         viol = run_sweep(args, &mut ev, &cases, &check_c07_precision);
-        let depth = if args.tier == Tier::Quick { 3 } else { 4 };
+        let depth = if args.tier == Tier::Quick { 4 } else { 6 };
         let (res, _) = pmap(&cases, args.threads, None, |c| check_c07_idem(c, depth));
         let mut merged = 0;
         for r in res.into_iter().flatten() {
